@@ -25,8 +25,11 @@ TABLE = {
         "descriptor and inode, listening and connectable; every captured "
         "spawn of a use_sockets watcher must carry close_fds=False, the right "
         "descriptor number in argv and an inheritable descriptor, and plain "
-        "watchers close_fds=True."),
-  note=SIM_NOTE + " What a real child inherits is the live tier's business (E3)."),
+        "watchers close_fds=True; circus' pre-exec function is run in a "
+        "forked child that reports what it sees at the managed descriptors; "
+        "a third of the daemons start from an ini file with [socket:] "
+        "sections and are told to re-read it."),
+  note=SIM_NOTE + " What a real child inherits after exec is the live tier's business (E3)."),
  "C08": dict(
   engine="E1-simworld", category="exploration", design_ref="DESIGN.md §4 C08",
   technique="enumeration of shutdown triggers (quit, SIGTERM, SIGINT, SIGQUIT) at every loop step of a set of in-flight operations plus Hypothesis-generated histories, on the circusd code path of the daemon over the simulated kernel with real managed sockets; Hypothesis-generated pid-file contents against Pidfile.create/unlink",
@@ -205,9 +208,10 @@ TABLE = {
         "Controller.handle_message; the frames written to the stream for "
         "that peer are counted and parsed (exactly one object with the "
         "request id and status ok/error, none for casts), followed by a "
-        "liveness probe. Client: delivery scripts with stale/foreign/"
+        "read-only and an exclusive liveness probe; an overlap family sends "
+        "requests while a slow operation is in flight. Client: delivery scripts with stale/foreign/"
         "duplicate replies around CircusClient/AsyncCircusClient.call."),
-  note=SIM_NOTE + " ZMQ framing itself is not exercised (recording fakes)."),
+  note=SIM_NOTE + " Multipart framing is modelled by the recording stream ([routing id, payload]); the ZMQ library itself is not exercised."),
  "C20": dict(
   engine="E2-pure", category="exploration", design_ref="DESIGN.md §4 C20",
   technique="property-based testing: exhaustive small-bound enumeration + Hypothesis-generated write sequences against a files-on-disk tail/size oracle",
